@@ -30,6 +30,8 @@ type Verifier struct {
 	workers   int
 	maxPasses int
 	rangeMS   int
+	funcs2    map[string]*ssa.Function // lifted-form SSA (footprint back ends)
+	prog2     *ssa.Program
 }
 
 func (v *Verifier) rangeTimeoutMS() int {
